@@ -121,7 +121,76 @@ func regStep(st, in, out any) (bool, any) {
 	return false, s
 }
 
+// c18counter: the register used as a CAS-only counter. Incrementers do
+// CAS(cur, cur+1), re-boxers do CAS(cur, cur) (a semantic no-op that, for values
+// whose boxing allocates, changes the underlying pointer). Conservation: final
+// value == start + number of CompareAndSwap calls that reported success. A CAS
+// that reports success without having swapped atomically loses an increment.
+func c18counter(c *core.Ctx) {
+	r := c.R
+	kind := r.Intn(3)
+	reg := newReg(kind)
+	start := int64(1000 + r.Intn(1000)) // >= 256: boxing an int64 allocates
+	reg.store(start)
+	ninc, nbox := r.Range(2, 6), r.Range(1, 6)
+	attempts := r.Range(50, 400)
+	succ := make([]int64, ninc)
+	var wg sync.WaitGroup
+	begin := make(chan struct{})
+	for g := 0; g < ninc; g++ {
+		g := g
+		wg.Add(1)
+		go func() {
+			defer wg.Done()
+			<-begin
+			for i := 0; i < attempts; i++ {
+				cur, _ := reg.load()
+				if reg.cas(cur, cur+1) {
+					succ[g]++
+				}
+			}
+		}()
+	}
+	for g := 0; g < nbox; g++ {
+		wg.Add(1)
+		go func() {
+			defer wg.Done()
+			<-begin
+			for i := 0; i < attempts; i++ {
+				cur, _ := reg.load()
+				reg.cas(cur, cur)
+			}
+		}()
+	}
+	close(begin)
+	wg.Wait()
+	total := int64(0)
+	for _, x := range succ {
+		total += x
+	}
+	final, ok := reg.load()
+	c.Count("reg_counter_rounds", 1)
+	c.Count("reg_counter_successful_increments", total)
+	extra := map[string]any{"type": reg.name, "incrementers": ninc, "reboxers": nbox, "attempts_each": attempts, "start": start, "gomaxprocs": runtime.GOMAXPROCS(0)}
+	if !ok {
+		c.Violate("reg:torn-value["+reg.name+"]", "final Load returned a malformed value", extra)
+		return
+	}
+	if final != start+total {
+		c.Violate("reg:cas-counter-lost-update["+reg.name+"]", fmt.Sprintf("%d CompareAndSwap(cur,cur+1) calls reported success but the counter went from %d to %d (expected %d): a CAS reported success without swapping atomically", total, start, final, start+total), extra)
+		return
+	}
+	c.NonTrivial(core.Mix(c.Seed, 77))
+	if c.WantSample() {
+		c.Sample(extra)
+	}
+}
+
 func c18reg(c *core.Ctx, record bool) {
+	if c.Index%5 == 4 {
+		c18counter(c)
+		return
+	}
 	r := c.R
 	kind := r.Intn(3)
 	reg := newReg(kind)
